@@ -77,6 +77,8 @@ def run(ck, prog):
                     w = feasible_with(conds, dom, set(pos))
                     ck.ob("DT", construct, w is None, expected="no negative constant outcome when deltaMax()>0",
                           found=repr(out), slot="sentinel-only-when-undefined", where=f.loc())
+    # ---- the public getter answers with the same table (whatever it does besides forwarding: a fast path in the wrapper is part of kappa)
+    decided_api = ck.attempt(_api_table, ck, prog)
     # ---- the numerator / denominator are the receiver's own delta() and deltaMax()
     fk = prog.fn(SEQ, "Sequence.kappa")
     calls = [n for n in ast.walk(fk.node) if isinstance(n, ast.Call) and isinstance(n.func, ast.Attribute)
@@ -88,9 +90,37 @@ def run(ck, prog):
     # ---- SIGN: delta() >= 0
     ck.attempt(_delta_nonneg, ck, prog)
     ck.attempt(_dmax_nonneg, ck, prog)
-    check_api(ck, prog, [("get_kappa", "kappa", None), ("get_delta", "delta", None),
-                         ("get_deltaMax", "deltaMax", None)])
+    # (a getter that is more than a forward and whose whole table was just compared needs no forwarding check)
+    check_api(ck, prog, ([] if decided_api else [("get_kappa", "kappa", None)]) + [("get_delta", "delta", None), ("get_deltaMax", "deltaMax", None)])
     ck.floor("kappa paths", ck.analysed.get("kappa paths", 0), 3)
+
+
+def _api_table(ck, prog):
+    from lcsa.dt import feasible_with
+    g = prog.fn("sequenceParameters.py", "SequenceParameters.get_kappa")
+    construct = g.mod.relpath + ":" + g.qual
+    # a plain `return self.SeqObj.kappa()` is covered by BIND-api below; anything more is evaluated like kappa itself
+    body = [s_ for s_ in g.body()]
+    if len(body) == 1 and isinstance(body[0], ast.Return):
+        return
+    for regime, dmval, pos in (("DM=0", Rat.const(0), ()), ("DM>0", "DM", ("DM",))):
+        pair = Pair(prog, positive=pos)
+        for ev in (pair.code, pair.ref):
+            ev.opaque_calls[KEY_D] = "D"
+            ev.opaque_calls[KEY_DM] = dmval
+        pair.ref.opaque_calls["ref.py:Sequence.delta"] = "D"
+        pair.ref.opaque_calls["ref.py:Sequence.deltaMax"] = dmval
+        _, code = pair.code_rows("sequenceParameters.py", "SequenceParameters.get_kappa")
+        ref = pair.ref_rows("Sequence.kappa")
+        atoms = set()
+        for conds, _ in code:
+            for c in conds:
+                atoms |= _cond_atoms(c)
+        ck.shape(atoms <= {"D", "DM", "N"}, "get_kappa: branches on %s besides delta(), deltaMax() and the length" % sorted(atoms - {"D", "DM", "N"}), g.loc())
+        dom = [Lin({"D": -1}, 0, "<="), Lin({"N": -1}, 6 if regime == "DM>0" else 1, "<=")]
+        compare_tables(ck, "DT", construct, code, ref, "api-table[%s]" % regime, where=g.loc(), domain=dom, positive=pos,
+                       note="the getter must answer -1 iff deltaMax()==0 and the ratio otherwise, like the backend")
+    return True
 
 
 def _cond_atoms(c):
